@@ -83,11 +83,33 @@ impl Scenario for C18 {
                     25 => "demonitor",
                     26 | 27 => "kill",
                     28 => if burst_run { "burst" } else { "spawn" },
-                    _ => "pause",
+                    _ => *r.pick(&["pause", "pause", "send_stale", "monitor_stale", "link_stale"]),
                 };
                 ops.push(Op { kind: kind.to_string(), a: r.below(8) as u32, b: r.below(8) as u32 });
             }
             tasks.push(ops);
+        }
+        let mut n_procs = n_procs;
+        if !behaviours && r.chance(1, 16) {
+            // a watcher that is busy for seconds with a full mailbox while the process it watches fails
+            n_procs = n_procs.max(3);
+            let nap_s = r.range(6, 20) as u32;
+            let mut t0 = vec![Op { kind: "nap".into(), a: 0, b: nap_s }, Op { kind: "burst".into(), a: 0, b: 0 }];
+            let mut t1 = Vec::new();
+            if r.chance(2, 3) {
+                t1.push(Op { kind: "monitor".into(), a: 0, b: 1 });
+            }
+            if r.chance(2, 3) || t1.is_empty() {
+                t1.push(Op { kind: "link".into(), a: 0, b: 1 });
+            }
+            t1.push(Op { kind: "wait".into(), a: r.range(1, 2000) as u32, b: 0 });
+            t1.push(Op { kind: "kill".into(), a: 1, b: 0 });
+            // the usual random operations around it (on the other processes' behalf as well)
+            t0.extend(tasks[0].iter().take(3).cloned());
+            t1.extend(tasks[1].iter().take(3).cloned());
+            tasks.truncate(2);
+            tasks[0] = t0;
+            tasks[1] = t1;
         }
         let p = Plan {
             kind: if behaviours { "behaviours" } else { "procs" }.to_string(),
@@ -124,12 +146,12 @@ impl Scenario for C18 {
 
     fn info(&self) -> Info {
         Info {
-            rule: "one run = a started real Node with 2..6 recorder processes and 1..3 names, 2..4 driver tasks each issuing a seeded history of send / send_to_name / register / unregister / whereis / link / unlink / monitor / demonitor / kill (handler failure) / burst (above mailbox capacity); recorder handlers stall on tape decisions; yield points in the mailbox loop, exit propagation and registry removal are active for a random subset of sites; every invocation and return and every handler event is stamped with one global sequence number. A fifth of the runs drive GenServerProcess / GenEventManager instead. All runs are non-trivial; distinct = distinct (yield/handler sequence, event log).",
+            rule: "one run = a started real Node with 2..6 recorder processes and 1..3 names, 2..4 driver tasks each issuing a seeded history of send / send_to_name / register / unregister / whereis / link / unlink / monitor / demonitor / kill (handler failure) / burst (above mailbox capacity) / nap (a handler busy for 6..20 s, with a burst behind it, while a process it watches fails) / send, monitor and link with an identifier that has the numbers of a live process but another creation, serial or node name; recorder handlers stall on tape decisions; yield points in the mailbox loop, exit propagation and registry removal are active for a random subset of sites; every invocation and return and every handler event is stamped with one global sequence number. A fifth of the runs drive GenServerProcess / GenEventManager instead. All runs are non-trivial; distinct = distinct (yield/handler sequence, event log).",
             components_real: &["edp_node::Node (spawn, register, unregister, whereis, registered, send, send_to_name, link, unlink, monitor, demonitor, process_count)", "edp_node::process (spawn_process, propagate_exit_signals, ProcessHandle)", "edp_node::registry", "edp_node::mailbox", "edp_node::gen_server::GenServerProcess", "edp_node::gen_event::GenEventManager", "tokio mpsc/RwLock (paused clock)"],
             components_stubbed: &["EPMD (stub; Node::start must register first)", "Process handlers (instrumented recorders; the behaviour callbacks are instrumented too)"],
             assumptions: &["link/unlink operations on one pair and monitor/demonitor operations on one (watcher, target) pair are issued by a single driver task, so their order is known; everything else is concurrent", "a process's death is an interval from the failing handler event to the drop of the process object; operations overlapping it may or may not take effect"],
             fault_prefixes: &["fault.", "proc."],
-            expected_probes: &["probe.c18.delivered", "probe.c18.exit_notified", "probe.c18.monitor_notified", "probe.c18.no_notice_after_unlink", "probe.c18.dead_pid_rejected", "probe.c18.name_of_dead_process_free", "probe.c18.name_history_linearizable", "probe.c18.send_name_delivered", "probe.c18.backpressure_burst", "probe.c18.gen_call_replied", "probe.c18.gen_event_notified", "probe.c18.spawned_mid_history"],
+            expected_probes: &["probe.c18.delivered", "probe.c18.exit_notified", "probe.c18.monitor_notified", "probe.c18.no_notice_after_unlink", "probe.c18.dead_pid_rejected", "probe.c18.name_of_dead_process_free", "probe.c18.name_history_linearizable", "probe.c18.send_name_delivered", "probe.c18.backpressure_burst", "probe.c18.gen_call_replied", "probe.c18.gen_event_notified", "probe.c18.spawned_mid_history", "probe.c18.stale_identifier_used", "probe.c18.notice_after_long_full_mailbox"],
         }
     }
 }
@@ -174,7 +196,16 @@ impl Process for Rec {
             self.maybe_stall().await;
             return Err(edp_node::Error::InvalidMessage("poison".to_string()));
         }
+        let nap_s = match &got {
+            Got::Regular(v) => parse_body(v).map(|(_, _, n, _)| n).filter(|n| *n >= NAP_BASE).map(|n| (n - NAP_BASE) as u64),
+            _ => None,
+        };
         self.record(got);
+        if let Some(secs) = nap_s {
+            // a handler that is busy for a long time
+            self.world.stat("proc.handler_nap");
+            tokio::time::sleep(Duration::from_secs(secs)).await;
+        }
         self.maybe_stall().await;
         Ok(())
     }
@@ -182,6 +213,19 @@ impl Process for Rec {
     async fn terminate(&mut self) {
         self.record(Got::Terminate);
         self.maybe_stall().await;
+    }
+}
+
+/// message counter values from here on tell the handler to stay busy for (n - NAP_BASE) seconds
+const NAP_BASE: usize = 5000;
+
+/// An identifier that differs from `p` in exactly one of creation, serial, node name.
+fn stale_variant(p: &ExternalPid, how: u32) -> ExternalPid {
+    match how % 4 {
+        0 => ExternalPid::new(p.node.clone(), p.id, p.serial, p.creation.wrapping_add(1)),
+        1 => ExternalPid::new(p.node.clone(), p.id, p.serial, p.creation ^ 0x8000_0000),
+        2 => ExternalPid::new(p.node.clone(), p.id, p.serial.wrapping_add(1), p.creation),
+        _ => ExternalPid::new(Atom::new("ghost@sim"), p.id, p.serial, p.creation),
     }
 }
 
@@ -259,11 +303,13 @@ async fn procs(w: &Arc<World>, p: &Plan) {
     w.set_yield_cfg(YieldCfg { intensity: p.yield_intensity, site_mask: p.yield_mask, max_sleep_ms: p.yield_sleep_ms });
 
     let n_tasks = p.tasks.len();
+    let naps: Arc<Mutex<Vec<u64>>> = Arc::new(Mutex::new(Vec::new()));
     let np = p.n_procs as usize + late_slots;
     let mut handles = Vec::new();
     for (ti, ops) in p.tasks.iter().enumerate() {
         let (node, ops, hist, pids_shared, names, ops_log, refs, w) = (node.clone(), ops.clone(), hist.clone(), pids.clone(), names.clone(), ops_log.clone(), refs.clone(), w.clone());
         let next_late = next_late.clone();
+        let naps = naps.clone();
         let stall_16 = p.proc_stall_16;
         handles.push(tokio::spawn(async move {
             for (k, op) in ops.iter().enumerate() {
@@ -293,8 +339,8 @@ async fn procs(w: &Arc<World>, p: &Plan) {
                 let existing: Vec<usize> = (0..np).filter(|i| snapshot[*i].is_some()).collect();
                 let a = existing[op.a as usize % existing.len()];
                 let mut b = existing[op.b as usize % existing.len()];
-                let needs_b = matches!(op.kind.as_str(), "register" | "link" | "unlink" | "monitor" | "demonitor");
-                let needs_a = !matches!(op.kind.as_str(), "register" | "unregister" | "whereis" | "send_name" | "pause");
+                let needs_b = matches!(op.kind.as_str(), "register" | "link" | "unlink" | "monitor" | "demonitor" | "monitor_stale" | "link_stale");
+                let needs_a = !matches!(op.kind.as_str(), "register" | "unregister" | "whereis" | "send_name" | "pause" | "wait");
                 if a == b && needs_b && needs_a {
                     b = existing[(op.b as usize + 1) % existing.len()];
                 }
@@ -321,6 +367,55 @@ async fn procs(w: &Arc<World>, p: &Plan) {
                             Ok(()) => Res::Ok,
                             Err(e) => Res::Err(e.to_string()),
                         };
+                    }
+                    "nap" => {
+                        let body = body_for(ti, k, NAP_BASE + op.b as usize, &format!("p{}", a));
+                        rec.body = Some(body.clone());
+                        rec.inv = next_seq(&hist);
+                        let _ = node.send(&pids[a], from_val(&body)).await;
+                        rec.ret = next_seq(&hist);
+                        naps.lock().unwrap().push(u64::from(op.b));
+                    }
+                    "wait" => {
+                        tokio::time::sleep(Duration::from_millis(u64::from(op.a))).await;
+                        continue;
+                    }
+                    "send_stale" => {
+                        // an identifier with the numbers of a live process but another creation, serial or node
+                        let body = body_for(ti, k, 0, &format!("x{}", a));
+                        rec.body = Some(body.clone());
+                        let target = stale_variant(&pids[a], op.b);
+                        rec.inv = next_seq(&hist);
+                        let r = node.send(&target, from_val(&body)).await;
+                        rec.ret = next_seq(&hist);
+                        rec.res = match r {
+                            Ok(()) => Res::Ok,
+                            Err(e) => Res::Err(e.to_string()),
+                        };
+                        w.stat("probe.c18.stale_identifier_used");
+                    }
+                    "monitor_stale" => {
+                        // somebody else's identifier (same numbers as process a) watches b: a must never hear of it
+                        let watcher = stale_variant(&pids[a], op.b);
+                        rec.inv = next_seq(&hist);
+                        let r = node.monitor(&watcher, &pids[b]).await;
+                        rec.ret = next_seq(&hist);
+                        rec.res = match r {
+                            Ok(rf) => Res::Ref(ref_val(&rf)),
+                            Err(e) => Res::Err(e.to_string()),
+                        };
+                        w.stat("probe.c18.stale_identifier_used");
+                    }
+                    "link_stale" => {
+                        let (x, y) = if op.b & 4 == 0 { (stale_variant(&pids[a], op.b), pids[b].clone()) } else { (pids[a].clone(), stale_variant(&pids[b], op.b & 1)) };
+                        rec.inv = next_seq(&hist);
+                        let r = node.link(&x, &y).await;
+                        rec.ret = next_seq(&hist);
+                        rec.res = match r {
+                            Ok(()) => Res::Ok,
+                            Err(e) => Res::Err(e.to_string()),
+                        };
+                        w.stat("probe.c18.stale_identifier_used");
                     }
                     "burst" => {
                         // above the mailbox capacity: the sender must be held back, nothing lost or reordered
@@ -460,7 +555,8 @@ async fn procs(w: &Arc<World>, p: &Plan) {
         }
     }
     // quiescence
-    tokio::time::sleep(Duration::from_millis(30_000)).await;
+    let nap_total: u64 = naps.lock().unwrap().iter().sum();
+    tokio::time::sleep(Duration::from_millis(30_000 + nap_total * 1000)).await;
     w.set_yield_cfg(YieldCfg::default());
 
     // one final observation of every name goes into the history as well
@@ -592,6 +688,9 @@ fn check_delivery(w: &Arc<World>, p: &Plan, ops: &[OpRec], events: &[RecEvent], 
                     if stripped.parse::<usize>().ok() != Some(e.proc_idx) {
                         w.violation("misdelivered", format!("message {:?} addressed to {} was handled by process {}", (t, k, n), target, e.proc_idx));
                     }
+                }
+                if target.starts_with('x') {
+                    w.violation("misdelivered", format!("message {:?}, addressed to an identifier that differs from every local process's in creation, serial or node name, was handled by process {}", (t, k, n), e.proc_idx));
                 }
             } else if *v != Val::atom("late") {
                 w.violation("foreign-message", format!("process {} handled a message nobody sent: {}", e.proc_idx, v.short()));
@@ -741,6 +840,10 @@ fn check_notifications(w: &Arc<World>, p: &Plan, ops: &[OpRec], events: &[RecEve
                 }
                 if on && exits == 1 {
                     w.stat("probe.c18.exit_notified");
+                    let failed_ms = events.iter().find(|e| e.proc_idx == *dead && matches!(e.got, Got::Failed)).map(|e| e.t_ms).unwrap_or(0);
+                    if events.iter().any(|e| e.proc_idx == q && matches!(&e.got, Got::Exit { from, .. } if *from == pvals[*dead]) && e.t_ms >= failed_ms + 5_000) {
+                        w.stat("probe.c18.notice_after_long_full_mailbox");
+                    }
                 }
                 if !on && exits == 0 && seq.iter().any(|(o, t)| !*t && o.ret < *n) {
                     w.stat("probe.c18.no_notice_after_unlink");
@@ -769,6 +872,10 @@ fn check_notifications(w: &Arc<World>, p: &Plan, ops: &[OpRec], events: &[RecEve
                     }
                     if on && notices == 1 {
                         w.stat("probe.c18.monitor_notified");
+                        let failed_ms = events.iter().find(|e| e.proc_idx == *dead && matches!(e.got, Got::Failed)).map(|e| e.t_ms).unwrap_or(0);
+                        if events.iter().any(|e| e.proc_idx == q && matches!(&e.got, Got::MonitorExit { monitored, .. } if *monitored == pvals[*dead]) && e.t_ms >= failed_ms + 5_000) {
+                            w.stat("probe.c18.notice_after_long_full_mailbox");
+                        }
                     }
                 }
             }
